@@ -155,8 +155,23 @@ impl Monitor for C04 {
         // size thresholds: hundreds of groups, or hundreds of values in one group
         if rng.chance(1, 200) { n = 400 + rng.below(1200); dc.keys = *rng.pick(&[1usize, 2, 40, 300]); }
         if rng.chance(1, 12) { dc.zeros = true; }
+        // integers that are distinct but equal as doubles, REALs one rounding step apart (as arguments and as keys)
+        let big_ints = n <= 40 && rng.chance(1, 10);
+        if big_ints { dc.big_ints = true; }
+        let ulp_reals = !big_ints && n <= 40 && rng.chance(1, 12);
+        if ulp_reals { dc.ulp_reals = true; }
         let lines = std_lines(rng, &t, n, &dc);
         let mut sel = gen_aggregate(rng, &t.schema, &AggCfg::default());
+        if big_ints {
+            for _ in 0..20 { if !crate::gen::big_int_risky(&sel) { break; } sel = gen_aggregate(rng, &t.schema, &AggCfg::default()); }
+            if crate::gen::big_int_risky(&sel) || rng.chance(1, 3) {
+                sel = Sel { from: "t".into(), group_by: Some(vec![col("k")]), ..Default::default() };
+                sel.projs = vec![(col("k"), None), (E::Agg("min".into(), false, vec![col("i")]), None), (E::Agg("max".into(), false, vec![col("i")]), Some("hi".into())), (E::Agg("count".into(), true, vec![col("i")]), None), (E::Agg("percentile".into(), false, vec![col("i"), E::Real(0.5)]), None)];
+                if rng.chance(1, 2) { sel.having = Some(bin(*rng.pick(&["=", ">=", "<", "!="]), E::Agg(rng.pick(&["max", "min"]).to_string(), false, vec![col("i")]), int(*rng.pick(&[9007199254740993i64, 9007199254740992, 4611686018427387905, 36028797018963969, -9007199254740993])))); }
+            }
+            if rng.chance(1, 3) { crate::gen::rekey(&mut sel, "i"); }
+        }
+        if ulp_reals && t.schema.ty_of("r").is_some() && rng.chance(1, 2) { crate::gen::rekey(&mut sel, "r"); }
         // DISTINCT over the result table: rows repeat when the keys are not shown
         if rng.chance(1, 6) { sel.distinct = true; if rng.chance(1, 2) { let keys = sel.group_by.clone().unwrap_or_default(); sel.projs.retain(|(e, _)| !keys.contains(e)); if sel.projs.is_empty() { sel.projs.push((E::Agg("count".into(), false, vec![E::Star]), None)); } } }
         json!({"tables": t.spec.text(), "stmt": sel.text(Paren::Full), "lines": lines})
